@@ -138,6 +138,69 @@ def cmd_run(name, checks, tier='quick'):
     return 0
 
 
+def cmd_scratch(name, checks, tier='quick'):
+    """Like run, but on a scratch worktree (VERIF_REPO_SRC), so that /repo
+    is not touched and other work can go on meanwhile."""
+    dst = os.path.join(ROOT, 'seeded', name)
+    meta = json.load(open(os.path.join(dst, 'meta.json')))
+    checks = checks or [meta['property']]
+    wt = tempfile.mkdtemp(prefix='seedwt_', dir='/tmp')
+    os.rmdir(wt)
+    rc, out = sh('git -C /repo worktree add -q --detach %s HEAD' % wt)
+    assert rc == 0, out
+    try:
+        rc, out = sh('git apply %s' % os.path.join(dst, 'patch.diff'), cwd=wt)
+        assert rc == 0, out
+        for c in checks:
+            t0 = time.time()
+            rc, out = sh('%s run.py %s %s' % (PY, c, tier), cwd=ROOT,
+                         env={'VERIF_EVIDENCE_DIR': '/tmp/seed_evidence',
+                              'VERIF_REPO_SRC': wt + '/src'})
+            lines = [l for l in out.splitlines()
+                     if l.startswith(('VIOLATION', '  bucket', 'HARNESS'))]
+            verdict = {0: 'missed', 1: 'DETECTED'}.get(rc, 'harness-error')
+            print('%s vs %s %s: %s (%.0fs)' % (name, c, tier, verdict,
+                                              time.time() - t0), flush=True)
+            for l in lines[:4]:
+                print('   ', l[:160], flush=True)
+            meta['detected_by']['%s %s' % (c, tier)] = dict(
+                verdict=verdict, buckets=[l.strip() for l in lines
+                                          if 'bucket' in l][:5])
+    finally:
+        sh('git -C /repo worktree remove --force %s' % wt)
+        shutil.rmtree(wt, ignore_errors=True)
+    json.dump(meta, open(os.path.join(dst, 'meta.json'), 'w'), indent=1)
+    return 0
+
+
+def cmd_matrix(tier='quick', extra=()):
+    names = sorted(os.listdir(os.path.join(ROOT, 'seeded')))
+    for n in names:
+        if not os.path.isdir(os.path.join(ROOT, 'seeded', n)):
+            continue
+        cmd_scratch(n, list(extra) or None, tier)
+    write_matrix()
+
+
+def write_matrix():
+    rows = []
+    base = os.path.join(ROOT, 'seeded')
+    for n in sorted(os.listdir(base)):
+        mp = os.path.join(base, n, 'meta.json')
+        if not os.path.exists(mp):
+            continue
+        m = json.load(open(mp))
+        det = ['%s: %s' % (k, v['verdict'])
+               for k, v in sorted(m['detected_by'].items())]
+        first = (m.get('needs_to_manifest') or '').strip().splitlines()
+        rows.append('| %s | %s | %s |' % (n, '; '.join(det),
+                                          (first[0] if first else '')[:110]))
+    with open(os.path.join(base, 'MATRIX.md'), 'w') as f:
+        f.write('# Seeded changes and the checks that catch them\n\n'
+                '| seed | checks run (tier): verdict | what it is |\n'
+                '|---|---|---|\n' + '\n'.join(rows) + '\n')
+
+
 if __name__ == '__main__':
     a = sys.argv[1:]
     if a[0] == 'import':
@@ -145,6 +208,10 @@ if __name__ == '__main__':
         if '--src' in a:
             src = a[a.index('--src') + 1]
         sys.exit(cmd_import(a[1], a[2], src))
+    elif a[0] == 'matrix':
+        sys.exit(cmd_matrix(extra=a[1:]))
+    elif a[0] == 'scratch':
+        sys.exit(cmd_scratch(a[1], a[2:]))
     elif a[0] == 'run':
         tier = 'quick'
         if '--tier' in a:
